@@ -31,6 +31,7 @@ def main(argv):
     states = set()
     plan_digests = []
     digests = {}
+    groups = {}
     violations = []
     known_hits = collections.Counter()
     harness_errors = []
@@ -58,6 +59,8 @@ def main(argv):
         states |= res.states
         if job.get('want_digests'):
             digests[str(index)] = res.digest
+        if res.group_digest is not None and res.verdict == 'ok':
+            groups[str(index)] = res.group_digest
         if res.sim:
             sim['clock_reads'] += res.sim['clock_reads']
             sim['uuid4'] += res.sim['uuid4']
@@ -95,7 +98,7 @@ def main(argv):
 
     result = dict(
         runs=runs, stats=dict(agg), states=sorted(core.canon(list(s)) for s in states),
-        plan_digests=plan_digests, digests=digests, violations=violations,
+        plan_digests=plan_digests, digests=digests, groups=groups, violations=violations,
         known_hits=dict(known_hits), harness_errors=harness_errors, samples=samples, sim=sim,
         wall_s=time.time() - t0, hash_seed=hash_seed, stopped_early=stopped_early,
     )
